@@ -57,6 +57,27 @@ let handle line =
   | "P" -> let rq = next_rq st in let rs = next_list st next_repo in
     let fs = pooled_listing rs rq in
     String.concat " " (string_of_int (List.length fs) :: List.map cl_hex fs)
+  | "C" ->
+    (* compile_main level: query rq cli_idx file_idx cli_extra file_extra has_params table default no_index *)
+    let q = next_query st in let rq = next_rq st in
+    let ci = next_list st next_str in let fi = next_list st next_str in
+    let ce = next_list st next_str in let fe = next_list st next_str in
+    let hp = next_bool st in
+    let table = next_list st (fun st -> let u = next_str st in let r = next_repo st in (u, r)) in
+    let def = next_repo st in
+    let ni = next_bool st in
+    let c = { cl_index = ci; cl_extra = ce; fl_index = fi; fl_extra = fe; has_file_options = hp } in
+    let urls l = if l = [] then "-" else String.concat "," (List.map cl_hex l) in
+    let head = "I " ^ urls (effective_index c) ^ " X " ^ urls (effective_extra c) in
+    (match build_stack (config_of_cmdline c [] [] [] table def ni) with
+     | None -> head ^ " | ERR ValueError"
+     | Some stack ->
+       let shape = String.concat " " (List.map (fun (g, l) -> (if g then "G" else "L") ^ ids l) (stack_shape_ids stack)) in
+       let (a, log) = multi_get_dist q stack rq in
+       let ans = match a with
+         | None -> "NC"
+         | Some (i, c) -> Printf.sprintf "F %d %s %s" (int_of_n i) (print_version c.ver) (cl_hex c.cfile) in
+       head ^ " | " ^ shape ^ " | " ^ ans ^ " | " ^ (if log = [] then "-" else ids log))
   | "N" -> cl_hex (pep503 (next_str st))
   | c -> failwith ("bad command " ^ c)
 
